@@ -15,6 +15,18 @@ from fractions import Fraction
 
 import numpy as np
 
+import sys
+
+if hasattr(sys, "set_int_max_str_digits"):
+    sys.set_int_max_str_digits(0)  # the model's exact rationals can have more than 4300 digits
+
+
+def parse_q(s):
+    """'num/den' -> Fraction without going through Fraction's regular expression (large numbers)"""
+    a, _, b = s.partition("/")
+    return Fraction(int(a), int(b) if b else 1)
+
+
 ID = "C05"
 LEVEL = "proof"
 THEOREMS = [
@@ -33,7 +45,7 @@ SEARCH_BUDGET = 60
 RULE = ("input files with 1..5 mutations x 1..3 samples (major 1..5 >= minor, normal 1..2, depth 0..60 quick / ..400 "
         "thorough, a few at 2000), tumour content and error rate as dyadics or the decimals 1e-3/1e-2/0.2 (the floats "
         "pandas parsed are what the model receives, exactly), both densities, precision in {1,2,40,400,1000,1/2,81/2}, "
-        "grid 1..21 and 101, optional clustering (with / without outlier_prob column, zero entries, assign flag) and "
+        "grid 1..21 and 101, optional clustering (with / without outlier_prob column, zero entries, assign flag; kind 'intcol': the column holds the integer literal 0 only) and "
         "optional missing tumour_content / error_rate columns; every grid entry and outlier term of load_data is "
         "compared with the Lean model's exact rational and, independently, with a Fraction evaluation of the formula "
         "in the property; 'sumone' files hold all alternate counts 0..n at fixed depth and the grids must sum to one; "
@@ -191,10 +203,30 @@ def gen_load(rnd, tier, i):
         groups = []
         for c in cids:
             groups.append({"id": c, "members": [ids[j] for j in range(M) if assign[j] == c],
-                           "p": rnd.choice(PROBS + ["0", "0"]) if has_col else None})
+                           "p": rnd.choice(PROBS + ["0.0", "0.0"]) if has_col else None})
         case["clusters"] = {"assign": rnd.random() < 0.3, "low_loss": "0.0001", "high_loss": "0.4",
                             "groups": groups, "per_sample_rows": rnd.random() < 0.4}
     return case
+
+
+def gen_intcol(rnd, i):
+    """cluster file whose outlier_prob column holds only the integer literal 0 ("use the default")"""
+    while True:
+        c = gen_load(rnd, "quick", 1)
+        if c["clusters"]:
+            break
+    c["kind"] = "intcol"
+    for g in c["clusters"]["groups"]:
+        g["p"] = "0"
+    c["clusters"]["assign"] = False
+    c["outlier_prob"] = rnd.choice(PROBS)
+    if i == 0:  # the minimal instance
+        c.update({"density": "binomial", "G": 3, "outlier_prob": "0.4", "cols": {"tumour_content": True, "error_rate": True},
+                  "muts": [{"id": "m1", "rows": [{"sample": "A", "ref": 3, "alt": 2, "major": 1, "minor": 1, "normal": 2,
+                                                  "t": "0.75", "eps": "0.001"}]}]})
+        c["clusters"] = {"assign": False, "low_loss": "0.0001", "high_loss": "0.4", "per_sample_rows": False,
+                         "groups": [{"id": 0, "members": ["m1"], "p": "0"}]}
+    return c
 
 
 def gen_sumone(rnd, tier, i):
@@ -267,6 +299,8 @@ def cases(tier, rnd):
         out.append(gen_prims(rnd, tier))
     for _ in range(5 if q else 40):
         out.append(gen_extreme(rnd))
+    for i in range(2 if q else 6):
+        out.append(gen_intcol(rnd, i))
     for w in ["major_lt_minor", "normal_zero", "precision_zero", "no_cluster"] * (1 if q else 4):
         out.append(gen_malformed(rnd, w))
     return out
@@ -423,7 +457,12 @@ def check_load(ctx, case, use_model=True):
         ctx.done(case, nontrivial=False, sample={"malformed": case["which"], "code": code_err, "model": model_err})
         return
     if code_err is not None:
-        ctx.oracle_fail(case, f"load_data raised {code_err} on a valid input", "data.pyclone.load_data", "exception", code_err)
+        cl = case.get("clusters")
+        if code_err == "TypeError" and cl and all(g["p"] is not None and "." not in g["p"] for g in cl["groups"]):
+            ctx.oracle_fail(case, "load_data raised TypeError: integer-typed outlier_prob column in the cluster file cannot take "
+                            "the default outlier probability", "data.pyclone._setup_cluster_df", "int-column-TypeError", code_err)
+        else:
+            ctx.oracle_fail(case, f"load_data raised {code_err} on a valid input", "data.pyclone.load_data", "exception", code_err)
         ctx.done(case, nontrivial=False)
         return
     if use_model and model_err is not None:
@@ -465,7 +504,7 @@ def check_load(ctx, case, use_model=True):
                     ctx.oracle_fail(case, f"grid of '{name}' at sample {s}, CCF index {k} differs from the PyClone formula",
                                     "data.pyclone.load_data", "value", {"code": c, "formula": e})
                 if model is not None and not bad_corr:
-                    mq = Fraction(model[i]["grid"][s][k])
+                    mq = parse_q(model[i]["grid"][s][k])
                     if not close(c, logq(mq), tol):
                         bad_corr = True
                         ctx.corr_fail(case, f"grid of '{name}' [{s},{k}]", {"code": c, "model": logq(mq)})
@@ -482,7 +521,7 @@ def check_load(ctx, case, use_model=True):
             ctx.oracle_fail(case, f"outlier terms of '{name}' are not size x (log p, log(1-p))", "data.pyclone.compute_outlier_prob",
                             "outlier", {"code": [co, cn], "formula": [eo, en], "p": float(p), "size": size})
         if model is not None:
-            mo, mn = logq(Fraction(model[i]["op"])), logq(Fraction(model[i]["opn"]))
+            mo, mn = logq(parse_q(model[i]["op"])), logq(parse_q(model[i]["opn"]))
             if not (close(co, mo, 1e-9) and close(cn, mn, 1e-9)) or model[i]["disabled"] != (p == 0):
                 ctx.corr_fail(case, f"outlier terms of '{name}'", {"code": [co, cn], "model": [mo, mn]})
     ctx.stat(f"points_{len(pts)}")
@@ -517,12 +556,12 @@ def check_sumone(ctx, case, use_model=True):
     if use_model and case["n"] <= 200:
         pts = ctx.ask(model_request(lc, muts, {}))["points"]
         for k in range(case["G"]):
-            if sum(Fraction(p["grid"][0][k]) for p in pts) != 1:
+            if sum(parse_q(p["grid"][0][k]) for p in pts) != 1:
                 ctx.corr_fail(case, f"model grid at CCF index {k} does not sum to one over the alternate counts", None)
                 break
         for i in (0, len(pts) // 2, len(pts) - 1):
             for k in range(case["G"]):
-                if not close(float(data[i].value[0, k]), logq(Fraction(pts[i]["grid"][0][k])), tol):
+                if not close(float(data[i].value[0, k]), logq(parse_q(pts[i]["grid"][0][k])), tol):
                     ctx.corr_fail(case, f"sum-one file, alternate count {i}, CCF index {k}", None)
     ctx.done(case, nontrivial=case["n"] > 0, sample=case)
 
@@ -620,7 +659,7 @@ def check_extreme(ctx, case, use_model=True):
     ctx.done(case, nontrivial=True, sample=case)
 
 
-KINDS = {"load": check_load, "malformed": check_load, "sumone": check_sumone, "genotypes": check_genotypes,
+KINDS = {"load": check_load, "malformed": check_load, "intcol": check_load, "sumone": check_sumone, "genotypes": check_genotypes,
          "prims": check_prims, "extreme": check_extreme}
 
 
